@@ -12,7 +12,11 @@ RULE = ("breadth-first search over ALL operation histories up to the length boun
         "clock would, at 1 and at ttl-1). PAIR configurations: ONE decorator object (the result of alru_cache(maxsize[, key_fn]) "
         "with default key and normalising key_fn / acached_per_instance() / alazy_constant(ttl)) is applied to TWO functions or "
         "methods (f,g / m,k / z,y) whose calls (reduced spelling menu x(a), x(a, b=1), x(a=a)) are interleaved in the histories, "
-        "the reference keeping one independent cache per decorated function. OVERLAPPING calls are operations too: "
+        "the reference keeping one independent cache per decorated function. VAR-KEYWORD signature classes (default key): "
+        "alru_cache on v(a, b=0, **opts) (maxsize 1..3) and r(a, *rest, **opts) (maxsize 2), acached_per_instance on "
+        "w(self, a, b=0, **opts), with spellings all-named-positional, all-named-positional + extra keyword x=1 / x=2, "
+        "defaulted b + extra keyword, keyword b + extra keyword, keyword a + extra keyword, extra positionals; the reference "
+        "key is the full normalised argument mapping, extra keywords and extra positionals included. OVERLAPPING calls are operations too: "
         "'together[X | Y]' = one @asynq driver task yields [fn.asynq(X), fn.asynq(Y)] with the blocking body kind, so both calls "
         "are in flight across the same batch flush (same key same/other spelling, different keys, with a raising twin, the two "
         "instances, the two functions of a pair; for alazy_constant z|z and z|y) on fresh and warm caches; and 'X, whose body "
@@ -39,13 +43,16 @@ ASSUMPTIONS = [
     "overlapping calls: the statement promises no single-flight, so one or two body runs are accepted for two overlapping misses "
     "of one key, and the recency order / which of two equal-key values is kept is left open (resolved by observing the real "
     "cache, or by the next hit for alazy_constant); everything after that is judged against the adopted reference state",
+    "extra keyword / extra positional values are small ints; a positional *rest element that itself is a pair ('x', 1) is outside "
+    "the alphabet (qcore.get_args_tuple flattens extra keywords to (name, value) pairs appended to the key tuple, so on the "
+    "unchanged library r(1, ('x', 1)) is served the entry of r(1, x=1))",
     "at most two calls overlap, issued from one driver task; the shared-decorator per-instance configuration uses the "
     "synchronous calling form only",
 ]
 TECHNIQUE = "explicit-state BFS over operation histories on the real objects vs reference state machine"
 
-DEPTH = {"quick": {"alru": 4, "acpi": 4, "alazy": 8, "alru-pair": 4, "acpi-pair": 4, "alazy-pair": 6},
-         "thorough": {"alru": 6, "acpi": 6, "acpi-abc": 5, "alazy": 10, "alru-pair": 6, "acpi-pair": 5, "alazy-pair": 9}}
+DEPTH = {"quick": {"alru": 4, "acpi": 4, "alazy": 7, "alru-pair": 4, "acpi-pair": 4, "alazy-pair": 6},
+         "thorough": {"alru": 6, "acpi": 6, "acpi-abc": 5, "alazy": 10, "alru-pair": 6, "acpi-pair": 6, "alazy-pair": 9}}
 CLOCK_STARTS = {0: (None, 1), 5: (None, 1, 4)}  # None = the large default start (1000000); small: 1 and ttl-1
 
 
@@ -84,6 +91,14 @@ def configs(tier="quick"):
                     out.append({"fam": "alru", "target": target, "maxsize": maxsize, "key": key, "body": body, "pair": True})
     for body in ("imm", "block"):
         out.append({"fam": "acpi", "sig": "ab", "body": body, "pair": True})
+    # var-keyword signature classes (default key only): v(a, b=0, **opts), r(a, *rest, **opts), method w(self, a, b=0, **opts)
+    for maxsize in (1, 2, 3):
+        for body in ("imm", "block"):
+            out.append({"fam": "alru", "target": "function", "sig": "v", "maxsize": maxsize, "key": "default", "body": body})
+    for body in ("imm", "block"):
+        out.append({"fam": "alru", "target": "function", "sig": "r", "maxsize": 2, "key": "default", "body": body})
+    for body in ("imm", "block"):
+        out.append({"fam": "acpi", "sig": "abk", "body": body})
     return out
 
 
@@ -97,7 +112,9 @@ def jobs(tier, seed):
         if c.get("pair"):
             return 500 + (c["body"] == "block") if c["fam"] == "acpi" else 6 + c["maxsize"]
         if c["fam"] == "acpi":
-            return 30 + {"abc": 1000, "ab": 1, "ac": 0}[c["sig"]] + (c["body"] == "block")
+            return 30 + {"abc": 1000, "ab": 1, "ac": 0, "abk": 0}[c["sig"]] + (c["body"] == "block")
+        if c.get("sig"):
+            return 8 + c["maxsize"]
         # default-key configurations are by far the largest while the known key defect multiplies the real cache states
         return (10 * c["maxsize"] + {"default": 100, "norm": 2, "coarse": 0}[c["key"]] * (c["maxsize"] - 1)
                 + 3 * (c["target"] == "function") + (c["body"] == "block"))
@@ -128,9 +145,11 @@ def finish(acc, tier):
                        "alru": "maxsize 1-3 x key {default, norm key_fn, coarse key_fn} x {function, method} x body {imm, block}",
                        "acpi": "signature {m(self,a,b=2), n(self,a,*,c=0)%s} x body {imm, block}, 2 instance slots"
                                % (", p(self,a,b=2,*,c=0)" if tier == "thorough" else ""),
+                       "var-keyword classes": "alru v(a,b=0,**opts) maxsize 1-3, r(a,*rest,**opts) maxsize 2, acpi w(self,a,b=0,**opts); "
+                       "default key, body {imm, block}; 8 spellings per value of a (calls only, no together/re-entry operations)",
                        "alazy": "ttl {0,5} x body {imm, block} x clock start {1000000, 1, ttl-1}, clock steps {0,4,6}",
                        "pairs (one decorator object on two functions)": "alru maxsize 1-3 x key {default, norm key_fn} x {f+g, "
-                       "methods m+k of one instance} x body; acpi methods m+k x 2 instances x body; alazy z+y x ttl {0,5} x body",
+                       "methods m+k of one instance} x body; acpi methods m+k x 2 instances x body (menu x(1), x(1,b=1), x(a=1), x(2,b=1); synchronous form); alazy z+y x ttl {0,5} x body",
                        "overlapping / re-entrant operations": "together[X | Y] over the menu x(1), x(2), x(1,b=1), x(a=1), x(2,b=1)(raises): "
                        "pairs (x1,x1) (x1,x(a=1)) (x1,x2) (x1,x(1,b=1)) (x1,raising) per function and instance + 2 cross-instance pairs "
                        "(blocking body configurations); re-entry x1->x2, x1->x(1,b=1) per function and instance (all configurations); "
